@@ -245,6 +245,7 @@ func (l *lexer) run() {
 				l.col += w
 				l.ignore()
 				l.inVerbatim = false
+				continue // re-check at the new position (e.g. another verbatim block follows)
 			}
 		} else if strings.HasPrefix(l.input[l.pos:], "{% verbatim %}") { // tag
 			if l.pos > l.start {
@@ -255,6 +256,7 @@ func (l *lexer) run() {
 			l.pos += w
 			l.col += w
 			l.ignore()
+			continue // re-check at the new position (the body may be empty)
 		}
 
 		if !l.inVerbatim {
